@@ -3,6 +3,7 @@ package props
 // C02 - XML -> Map -> XML -> Map is a fixed point; re-encoded XML is well formed.
 
 import (
+	"bytes"
 	"strings"
 	"testing"
 
@@ -134,6 +135,13 @@ func checkC02(c CaseC02, info *Info) *Failure {
 	}
 	if !valEqual(map[string]interface{}(m1), map[string]interface{}(m2)) {
 		return failf("not-a-fixed-point", "opts %+v indent=%v prefix=%q ind=%q\ndoc %q\nxml %q\n m1 %#v\n m2 %#v", c.Opts, c.Indent, c.Prefix, c.Ind, doc, x, m1, m2)
+	}
+	// the reader forms of the decoder see the re-encoded document the same way
+	if mr, rerr := mxj.NewMapXmlReader(plainReader{bytes.NewReader(x)}, c.Opts.Cast); rerr != nil || !valEqual(map[string]interface{}(m1), map[string]interface{}(mr)) {
+		return failf("not-a-fixed-point", "opts %+v: NewMapXmlReader of the re-encoded document %q gives %#v (%v), first Map %#v", c.Opts, x, mr, rerr, m1)
+	}
+	if mr, _, rerr := mxj.NewMapXmlReaderRaw(bytes.NewReader(x), c.Opts.Cast); rerr != nil || !valEqual(map[string]interface{}(m1), map[string]interface{}(mr)) {
+		return failf("not-a-fixed-point", "opts %+v: NewMapXmlReaderRaw of the re-encoded document %q gives %#v (%v), first Map %#v", c.Opts, x, mr, rerr, m1)
 	}
 	cl := map[string]bool{}
 	mapClasses(map[string]interface{}(m1), c.Opts, cl)
